@@ -48,6 +48,11 @@ func (r *RunnerManager) Add(runner ...Runner) error {
 	}
 	r.lock.Lock()
 	defer r.lock.Unlock()
+	// Check again under the lock: Run may have started, and taken its snapshot of
+	// the runners, since the check above.
+	if r.running.Load() {
+		return ErrManagerAlreadyStarted
+	}
 	r.runners = append(r.runners, runner...)
 	return nil
 }
@@ -63,8 +68,14 @@ func (r *RunnerManager) Run(ctx context.Context) error {
 	ctx, cancel := context.WithCancel(ctx)
 	defer cancel()
 
+	// Take a snapshot of the runners under the lock, so that a concurrent Add is
+	// either started and waited for, or rejected.
+	r.lock.Lock()
+	runners := r.runners
+	r.lock.Unlock()
+
 	errCh := make(chan error)
-	for _, runner := range r.runners {
+	for _, runner := range runners {
 		go func(runner Runner) {
 			// Since the task returned, we need to cancel all other tasks.
 			// This is a noop if the parent context is already cancelled, or another
@@ -86,7 +97,7 @@ func (r *RunnerManager) Run(ctx context.Context) error {
 
 	// Collect all errors
 	errObjs := make([]error, 0)
-	for i := 0; i < len(r.runners); i++ {
+	for i := 0; i < len(runners); i++ {
 		err := <-errCh
 		if err != nil {
 			errObjs = append(errObjs, err)
